@@ -16,8 +16,9 @@ HARNESS = os.path.join(VERIF, "harness")
 P2H = os.path.join(HARNESS, "target", "debug", "p2h")
 BIN_DIR = os.path.join(HARNESS, "target", "p2sh")
 P2SH = os.path.join(BIN_DIR, "debug", "p2sh")
-REPLAYS = os.path.join(VERIF, "replays")
-EVIDENCE = os.path.join(VERIF, "evidence")
+# (development runs against seeded changes redirect both, so that committed evidence stays that of the real tree)
+REPLAYS = os.environ.get("VERIF_REPLAY_DIR") or os.path.join(VERIF, "replays")
+EVIDENCE = os.environ.get("VERIF_EVIDENCE_DIR") or os.path.join(VERIF, "evidence")
 NCPU = min(16, os.cpu_count() or 4)
 TLC_WORKERS = int(os.environ.get("VERIF_TLC_WORKERS", "8"))
 
